@@ -60,10 +60,12 @@ NOINST static long push_packet_locked(const uint8_t *payload, size_t n) {
 }
 NOINST void bus_push_packet(const uint8_t *payload, size_t n) {
 	char hx[1024]; hexstr(hx, payload, n > 500 ? 500 : n);
+	/* np: sequence number taken BEFORE the bytes become visible to the receiver (lower bound of the delivery time) */
+	unsigned long long np = ev_seq();
 	__real_pthread_mutex_lock(&bmx);
 	long id = push_packet_locked(payload, n);
 	__real_pthread_mutex_unlock(&bmx);
-	ev("\"e\":\"up\",\"pkt\":%ld,\"payload\":\"%s\"", id, hx);
+	ev("\"e\":\"up\",\"pkt\":%ld,\"np\":%llu,\"payload\":\"%s\"", id, np, hx);
 }
 NOINST void bus_push_raw(const int16_t *items, size_t n) {
 	__real_pthread_mutex_lock(&bmx);
